@@ -706,6 +706,10 @@ fn exec_op_inner<C: Cv, CS: ConstraintSystem<Fr<C>>>(
             }
             Ok(())
         }
+        Op::Fail => {
+            cx.emit(json!({"ev":"call","ph":ph,"op":"fail","ret":[],"err":"GadgetError"}));
+            Err(R1CSError::GadgetError { description: "verif: closure failed".to_string() })
+        }
         Op::Len => {
             let n = cs.multipliers_len();
             cx.emit(json!({"ev":"call","ph":ph,"op":"len","ret":n,"err":""}));
